@@ -183,6 +183,15 @@ def _oncone(n, theta):
     return absval(theta - np.arccos(1 / n)) <= resolve(ARZ).oncone_range
 
 
+def _cone_angle(n):
+    """a viewing angle numerically on the Cherenkov cone (any angle within oncone_range of arccos(1/n))"""
+    if NATIVE:
+        return float(np.arccos(1 / n)) + real("cone_offset", -1, 1) * float(resolve(ARZ).oncone_range)
+    th = real("theta", 0, pi)
+    assume(_oncone(n, th))
+    return th
+
+
 @harness(clause="inverse-distance")
 def arz_shower_on_the_cone_is_exact():
     """on-cone branch: element-wise, E_i = -(A(t_{i+1} - t0) - A(t_i - t0)) / (R dt): 1/R, linear in whatever the
@@ -190,11 +199,10 @@ def arz_shower_on_the_cone_is_exact():
     t = _grid()
     a = _arz()
     e = real("energy", 1e-3, 1e12)
-    th = real("theta", 0, pi)
     n = real("index", 1.01, 2)
+    th = _cone_angle(n)
     R = real("distance", 1e-3, 1e4)
     t0 = real("t0", -1e-7, 1e-7)
-    assume(_oncone(n, th))
     v = a.shower_signal(t, e, PROFILE, POTENTIAL, th, R, n, t0)
     dt = t[1] - t[0]
     i = fresh_index("i", len(t))
@@ -221,12 +229,11 @@ def arz_on_the_cone_moves_by_whole_samples():
     t = start + dt * np.arange(n_)
     a = _arz()
     e = real("energy", 1e-3, 1e12)
-    th = real("theta", 0, pi)
     n = real("index", 1.01, 2)
+    th = _cone_angle(n)
     R = real("distance", 1e-3, 1e4)
     t0 = real("t0", -1e-7, 1e-7)
     k = integer("k", -5, 5)
-    assume(_oncone(n, th))
     v = a.shower_signal(t, e, PROFILE, POTENTIAL, th, R, n, t0)
     w = a.shower_signal(t, e, PROFILE, POTENTIAL, th, R, n, t0 + k * dt)
     i = fresh_index("i", n_)
@@ -240,11 +247,10 @@ def arz_em_field_on_the_cone_is_proportional_to_the_energy():
     a = _arz()
     e = real("energy", 1e-3, 1e12)
     c = real("factor", 1e-3, 1e3)
-    th = real("theta", 0, pi)
     n = real("index", 1.01, 2)
+    th = _cone_angle(n)
     R = real("distance", 1e-3, 1e4)
     t0 = real("t0", -1e-7, 1e-7)
-    assume(_oncone(n, th))
     K = resolve(ARZ)
     v = a.shower_signal(t, e, K.em_shower_profile, K.em_shower_RAC, th, R, n, t0)
     w = a.shower_signal(t, c * e, K.em_shower_profile, K.em_shower_RAC, th, R, n, t0)
